@@ -130,8 +130,58 @@ def sync_rules(ctx, g, wrap, wpath):
                         "unite no longer takes &mut self: unions can interleave with outstanding shared borrows")
     ctx.floor("public methods of " + wrap, n, 4)
     cl = ctx.body(M + wpath + "::classes")
+    classes_keying(ctx, cl, wpath)
     for bi, t in cl.calls(exact=M + wpath + "::find"):
         every_iteration_reaches(ctx, "T3-classes-covers-all-elements", cl, bi, "element-loop->find", "some queried element is skipped by classes(): the listing does not partition the queried elements")
+
+
+def classes_keying(ctx, cl, wpath):
+    """classes(): a class is looked up and registered under the same key, the representative find(e) of the element at hand; the registered
+    value is the index the new class is about to get; the element itself goes into the class found / the new class"""
+    g = ctx.facts.getters()
+    me = ("param", 1, cl.debug.get(1, ""))
+    st = lambda x: strip(norm(cl.origin(x), g))
+    def uncl(t):
+        t = strip(t)
+        while t[0] == "call" and t[1].endswith("Clone::clone") and len(t[2]) == 1:
+            t = strip(t[2][0])
+        return t
+    gets = [(bi, [st(x) for x in t["args"]]) for bi, t in cl.calls("HashMap::<K, V, S, A>::get")]
+    inss = [(bi, [st(x) for x in t["args"]]) for bi, t in cl.calls("HashMap::<K, V, S, A>::insert")]
+    ctx.floor("class_for_rep lookups + registrations in %s::classes" % wpath, len(gets) + len(inss), 2)
+    if not gets or not inss:
+        return
+    key = gets[0][1][1]
+    okk = key[0] == "call" and key[1] == M + wpath + "::find" and key[2][0] == me
+    elem = uncl(key[2][1]) if okk else None
+    okk = okk and elem is not None and iter_source(cl, elem, g) is not None
+    ctx.ob("T4-classes-keyed-by-rep", cl.name, "lookup key", "ok" if okk else "violation",
+           "a class is looked up under find(e) of the loop's element" if okk else "the class lookup key is not self.find(e) of the loop's element: " + show(key, 1)[:70], cl.span_of(gets[0][0]))
+    for bi, a in inss:
+        same = a[0] == gets[0][1][0] and a[1] == key
+        ctx.ob("T4-classes-keyed-by-rep", cl.name, "registration key", "ok" if same else "violation",
+               "a new class is registered under the key it is looked up by" if same else
+               "a new class is registered under %s but looked up under %s: later members of the class do not find it and the class is split" % (show(a[1], 1)[:50], show(key, 1)[:50]), cl.span_of(bi))
+        v = a[2]
+        okv = v[0] == "call" and v[1].endswith("::len") and v[2][0][0] == "local"
+        pushes_new = [(pb, t) for pb, t in cl.calls("Vec::<T, A>::push") if okv and st(t["args"][0]) == v[2][0]]
+        okv = okv and len(pushes_new) == 1 and cl.dominates(bi, pushes_new[0][0]) and loop_containing(cl, bi) is not None and must_pass_through(cl, bi, pushes_new[0][0], loop_containing(cl, bi)[0])
+        ctx.ob("T4-classes-keyed-by-rep", cl.name, "registered index", "ok" if okv else "violation",
+               "the registered index is classes.len() right before the new class is pushed" if okv else "the index registered for a new class is not the position it is pushed at: " + show(v, 1)[:50], cl.span_of(bi))
+        if okv and elem is not None:
+            lit = vec_literal(cl, cl.origin(pushes_new[0][1]["args"][1]))
+            okn = lit is not None and len(lit) == 1 and uncl(norm(lit[0], g)) == elem
+            ctx.ob("T4-classes-keyed-by-rep", cl.name, "new class = [e]", "ok" if okn else "violation",
+                   "the new class starts with the element at hand" if okn else "the new class is not vec![e]", cl.span_of(pushes_new[0][0]))
+    if elem is not None:
+        okp = False
+        for pb, t in cl.calls("Vec::<T, A>::push"):
+            tgt = st(t["args"][0])
+            if tgt[0] == "call" and tgt[1].endswith("IndexMut::index_mut"):
+                idx = strip(tgt[2][1])
+                okp = contains(idx, lambda x: x == key) and contains(idx, lambda x: x[0] == "call" and x[1].endswith("::get")) and uncl(st(t["args"][1])) == elem
+        ctx.ob("T4-classes-keyed-by-rep", cl.name, "member push", "ok" if okp else "violation",
+               "an element whose representative is registered is pushed into classes[index found]" if okp else "the element is not pushed into the class found under its representative")
 
 
 def parent_stores(b, g, field="parent"):
